@@ -304,10 +304,16 @@ def includeEnv (W : World) (wd projDir : String) (env : Env) (ef : List String) 
   (envFiles W wd projDir ef).bind fun efs =>
   (W.envFromFile env efs).bind fun fromFile => .ok (envMerge env fromFile)
 
+/-- the directory relative `project_directory` / `env_file` entries are joined to: `workingDir` when it is
+absolute; when it is relative (the including file is itself included) the working directory of the local resource
+loader, which is the including project's directory in absolute form -/
+def baseDir (wd L : String) : String :=
+  if isAbs wd then wd else if L = "" then wd else L
+
 /-- body of `for _, r := range includeConfig` -/
 def includeOne (W : World) (wd L : String) (env : Env) (chain : List String) (model : KVs) (r : IncCfg) : Out KVs :=
-  (plan W wd L chain r).bind fun pl =>
-  (includeEnv W wd pl.projDir env r.envFile).bind fun env' =>
+  (plan W (baseDir wd L) L chain r).bind fun pl =>
+  (includeEnv W (baseDir wd L) pl.projDir env r.envFile).bind fun env' =>
   (W.loadModel pl.relwd pl.projDir pl.paths env' chain).bind fun imported =>
   importResources imported model
 
